@@ -40,7 +40,10 @@ RULE = (
     "distinct_nontrivial = distinct (callable, parameters, seed, schedule) whose output is non-empty"
 )
 ASSUMPTIONS = [
-    "one interpreter process, PYTHONHASHSEED fixed; both executions get equal but separately built arguments (mutable arguments such as degree dicts are fresh copies)",
+    "one interpreter process, PYTHONHASHSEED fixed; odd rounds pass the very same argument objects (networks, graphs, dicts, arrays, pos / fixed / center containers) to both "
+    "executions and to the interleaved calls of the same callable - only arguments documented as modified in place (uniform_hypergraph_configuration_model's k) are rebuilt; "
+    "even rounds rebuild every argument from plain data. A difference seen only with shared objects is keyed <fn>|seed,same-argument-objects|... (two further executions on "
+    "rebuilt arguments decide); undocumented in-place changes of an argument are counted under argument-modified:* (no verdict)",
     "seeds: 0, small and large plain ints below 2**32 (80 %), numpy integers (10 %), ints of 2**32 and more (10 %); the last two classes may be refused by random.seed / "
     "numpy.random.seed / networkx (TypeError / ValueError): then both executions must refuse alike (counted as raised-both, not compared further)",
     "options regime (every third round): networkx pass-through keyword arguments of the four spring layouts (pos for all / some nodes as tuples or arrays, fixed, iterations, "
